@@ -273,7 +273,7 @@ class Mix(Scenario):
         elif it.kind == 'push':
             steps.append(Step('request', lambda w: st.__setitem__('fut', watch_future(w, side, 'push' + it.tag, sock.metadata_push(b(it.pay('q', 1).metadata))))))
         else:
-            sub = RecSubscriber(w, side, 'sub' + it.tag)
+            sub = RecSubscriber(w, side, 'sub' + it.tag, cancel_on_subscribe=(it.cancel_after == -1))
             st['sub'] = sub
             n0 = MAXN if it.credit == 'max' else 1
             if it.credit == 'one':
@@ -286,8 +286,16 @@ class Mix(Scenario):
                     up = self._publisher(w, it, side, 'u', it.up, it.up_ending) if it.up >= 0 else None
                     sock.request_channel(it.pay('q', 0), up).initial_request_n(n0).subscribe(sub)
 
-            steps.append(Step('request', go))
-            if it.cancel_after is not None:
+            if it.cancel_after == -1:
+                def go_and_note(w, go=go):
+                    st['cancel_log'] = len(w.log)
+                    st['pending_at_cancel'] = True
+                    go(w)
+
+                steps.append(Step('request', go_and_note))
+            else:
+                steps.append(Step('request', go))
+            if it.cancel_after is not None and it.cancel_after >= 0:
                 k = it.cancel_after
 
                 def cancel(w):
@@ -354,7 +362,9 @@ class Mix(Scenario):
                 want = pl(it.pay('q', 0))
             expected_calls[resp].append((hname[it.kind], want))
             got = [c for c in calls[resp] if c == (hname[it.kind], want)]
-            if len(got) != 1:
+            if it.cancel_after == -1 and it.kind == 'stream' and len(got) == 0:
+                expected_calls[resp].pop()  # cancelled inside on_subscribe: the request need not be sent at all
+            elif len(got) != 1:
                 out.append(('C01.request-delivered-once', 'C01.request-delivered-once | %s | seen=%d' % (cfg, len(got)),
                             'request %s of %s reached the peer handler %d times; handler calls: %s' % (
                                 it.tag, it.kind, len(got), _short(calls[resp]))))
